@@ -56,3 +56,24 @@ package pogreb
 //@     invariant forall h ref :: old(hOpen[h]) ==> hOpen[h] && fidOf[h] == old(fidOf[h]) && fLen[fidOf[h]] <= old(fLen[fidOf[h]])
 //@     invariant forall h ref, q int :: old(hOpen[h]) && 0 <= q && q < int(fLen[fidOf[h]]) ==> fData[fidOf[h]][q] == old(fData[fidOf[h]])[q]
 //@     decreases 2*len(it.segments) + ite(it.segit != nil, 1, 0)
+
+// ---- recovery.go: moving the files recovery does not trust out of the way ---------------------------------------
+// a file recovery rebuilds: neither a segment nor the lock file (nor an earlier backup copy)
+//@ spec func rebuilt(n string) bool = extOf(n) != ".psg" && extOf(n) != ".bac" && n != "lock"
+
+// backupNonsegmentFiles: when it returns nil no index or metadata file is left under its own name, whatever else is
+// in the directory (also backup copies left by an interrupted recovery): the Open that follows starts from an empty index
+//@ func backupNonsegmentFiles(fsys fs.FileSystem) (err error) [C03,C04]
+//@   requires fs: fsys != nil
+//@   ensures [C04] moved-aside: err == nil ==> forall n string :: rebuilt(n) && old(dirFid[fsys][n]) != 0 ==> dirFid[fsys][n] == 0
+//@   ensures [C04] segments-stay: forall n string :: extOf(n) == ".psg" || n == "lock" ==> dirFid[fsys][n] == old(dirFid[fsys][n])
+//@   ensures err: err != nil ==> isIOErr(err) || !isIOErr(err)
+//@   modifies dirFid[fsys]
+//@   loop 1:
+//@     invariant -1 <= rangeindex && rangeindex < len(files) && fsys == old(fsys) && files == old(files)
+//@     invariant forall q int :: off(files) <= q && q < off(files) + len(files) ==> contents(files)[q] != nil
+//@     invariant forall q int :: off(files) <= q && q <= off(files) + rangeindex && rebuilt(dentName[contents(files)[q]]) ==> dirFid[fsys][dentName[contents(files)[q]]] == 0
+//@     invariant forall n string :: extOf(n) != ".bac" ==> dirFid[fsys][n] == old(dirFid[fsys][n]) || dirFid[fsys][n] == 0
+//@     invariant forall n string :: extOf(n) == ".psg" || n == "lock" ==> dirFid[fsys][n] == old(dirFid[fsys][n])
+//@     decreases len(files) - rangeindex
+//@     modifies dirFid[fsys]
